@@ -485,25 +485,110 @@ def check_minimiser_siblings(ctx, rep, fs, rule='R-SIBLING'):
 
 def check_consistency_disjunction(ctx, rep, f, rule='R-SYM.or'):
     """a `return False` that tests the consistency of a pair against both the map and its inverse must fire when either
-    direction conflicts (a disjunction)"""
+    direction conflicts.  Decided by a truth table: the two comparisons (one per map) are set to conflict / agree in all
+    four ways and the rejecting condition -- with local names for conditions expanded -- must be true exactly when at
+    least one of them conflicts, however it is written (`a != x or b != y`, `not (a == x and b == y)`, a named flag ...)."""
+    from .. import abseval
+    from .models import resolve_alias
     n = 0
     for st in walk_no_nested(f.node):
         if not (isinstance(st, ast.If) and any(isinstance(b, ast.Return) and isinstance(b.value, ast.Constant) and b.value.value is False for b in st.body)):
             continue
-        t = st.test
-        if not isinstance(t, ast.BoolOp):
-            continue
-        maps = set()
+
+        def expand(e, depth=0):
+            if depth > 3:
+                return e
+            if isinstance(e, ast.Name):
+                r = resolve_alias(f, e)
+                return expand(r, depth + 1) if r is not e else e
+            if isinstance(e, ast.UnaryOp) and isinstance(e.op, ast.Not):
+                return ast.UnaryOp(op=ast.Not(), operand=expand(e.operand, depth + 1))
+            if isinstance(e, ast.BoolOp):
+                return ast.BoolOp(op=e.op, values=[expand(v, depth + 1) for v in e.values])
+            return e
+        t = expand(st.test)
+        comps = {}
         for c in ast.walk(t):
-            if isinstance(c, ast.Call) and isinstance(c.func, ast.Attribute) and c.func.attr == 'get':
-                maps.add(u(c.func.value))
-            if isinstance(c, ast.Subscript):
-                maps.add(u(c.value))
-        if len(maps) < 2:
+            if isinstance(c, ast.Compare) and len(c.ops) == 1 and isinstance(c.ops[0], (ast.Eq, ast.NotEq)):
+                ms = set()
+                for x in ast.walk(c):
+                    if isinstance(x, ast.Call) and isinstance(x.func, ast.Attribute) and x.func.attr == 'get':
+                        ms.add(u(x.func.value))
+                    if isinstance(x, ast.Subscript):
+                        ms.add(u(x.value))
+                if len(ms) == 1:
+                    comps.setdefault(ms.pop(), []).append(c)
+        if len(comps) != 2 or any(len(v) != 1 for v in comps.values()):
             continue
         n += 1
-        if isinstance(t.op, ast.Or):
-            rep.holds(rule, f, st, 'the pair is rejected when it conflicts with either of {}'.format(sorted(maps)))
+        (m1, [c1]), (m2, [c2]) = sorted(comps.items())
+        ok = True
+        witness = None
+        try:
+            for a in (False, True):
+                for b in (False, True):
+                    atoms = {}
+                    for c, conflict in ((c1, a), (c2, b)):
+                        val = conflict if isinstance(c.ops[0], ast.NotEq) else not conflict
+                        atoms[' '.join(u(c).split())] = val
+                    rejected = bool(abseval.ev(t, {}, atoms))
+                    if rejected != (a or b):
+                        ok = False
+                        witness = (a, b, rejected)
+        except abseval.Unsupported as e:
+            rep.undecided(rule, f, st, 'rejecting condition outside the fragment: {}'.format(e))
+            continue
+        if ok:
+            rep.holds(rule, f, st, 'the pair is rejected exactly when it conflicts with {} or with {} (truth table over the two comparisons)'.format(m1, m2))
         else:
-            rep.violates(rule, f, st, 'the pair is rejected only when it conflicts with both {} at once: a conflict in one direction is accepted and overwrites the recorded match (not a bijection)'.format(sorted(maps)))
+            a, b, r = witness
+            rep.violates(rule, f, st, 'when the pair {} {} and {} {} it is {}: a conflict in one direction must reject the pair, otherwise it overwrites the recorded match and the relation built is not a bijection'.format(
+                'conflicts with' if a else 'agrees with', m1, 'conflicts with' if b else 'agrees with', m2, 'rejected' if r else 'accepted'))
+    return n
+
+
+def check_index_agreement(ctx, rep, f, rule='R-INDEX'):
+    """a table keyed by POSITIONS in an enumeration of a set is handed to another function: both functions must
+    enumerate the set by the same expression (list(D.Q) and list(D.Q) of an unchanged set agree; list(D.Q) and
+    sorted(D.Q) do not), otherwise entry (i, j) means one pair of elements to the producer and another to the consumer."""
+    from .models import resolve_alias
+
+    def position_lists(g, table_name):
+        """local lists L = list(..)/sorted(..)/tuple(..) whose index variables also index the table"""
+        out = {}
+        idx_vars = set()
+        for x in walk_no_nested(g.node):
+            if isinstance(x, ast.Subscript) and u(x.value) == table_name:
+                idx_vars |= {n.id for n in ast.walk(x.slice) if isinstance(n, ast.Name)}
+        for st in walk_no_nested(g.node):
+            if isinstance(st, ast.Assign) and len(st.targets) == 1 and isinstance(st.targets[0], ast.Name) and isinstance(st.value, ast.Call) \
+                    and isinstance(st.value.func, ast.Name) and st.value.func.id in ('list', 'sorted', 'tuple') and st.value.args:
+                L = st.targets[0].id
+                used = any(isinstance(x, ast.Subscript) and u(x.value) == L and isinstance(x.slice, ast.Name) and x.slice.id in idx_vars for x in walk_no_nested(g.node))
+                if used:
+                    src = resolve_alias(g, st.value.args[0])
+                    p0 = g.pos_params[0].arg if g.pos_params else ''
+                    canon = '{}({}{})'.format(st.value.func.id, u(src).replace(p0 + '.', '$0.'), ', ...' if (len(st.value.args) > 1 or st.value.keywords) else '')
+                    out[L] = (canon, st)
+        return out
+    n = 0
+    for c in ctx.prog.calls_in(f):
+        r = ctx.resolve_call(f, c)
+        if r is None or r.kind != 'func' or r.target is f or r.target.parent is not None:
+            continue
+        g = r.target
+        for i, a in enumerate(c.args):
+            if not isinstance(a, ast.Name) or i >= len(g.pos_params):
+                continue
+            mine = position_lists(f, a.id)
+            theirs = position_lists(g, g.pos_params[i].arg)
+            if len(mine) != 1 or len(theirs) != 1:
+                continue
+            n += 1
+            (c1, s1), (c2, s2) = list(mine.values())[0], list(theirs.values())[0]
+            if c1 == c2:
+                rep.holds(rule, f, c, 'the table {} is indexed by positions in {} here and in {}: the same enumeration of the same unchanged set'.format(a.id, c1.replace('$0', f.pos_params[0].arg), g.name))
+            else:
+                rep.violates(rule, f, s1, 'the table {0} is filled by positions in `{1}`, but {2}, which receives it, reads it by positions in `{3}`: entry (i, j) stands for one pair of states here and for another pair there, so the wrong states are merged'.format(
+                    a.id, c1.replace('$0', f.pos_params[0].arg), g.name, c2.replace('$0', g.pos_params[0].arg)))
     return n
